@@ -133,7 +133,7 @@ def create_bitcoinish_network(symbol: str, network_name: str, subnet_name: str, 
     # --- Phase 1: primitives, no dependency on network object yet ---
 
     generator = kwargs.get("generator", secp256k1_generator)
-    kwargs.setdefault("sec_prefix", "%sSEC" % symbol.upper())
+    kwargs.setdefault("sec_prefix", "%sSEC:" % symbol.upper())
     KEYS_TO_H2B = (
         "bip32_prv_prefix bip32_pub_prefix bip49_prv_prefix bip49_pub_prefix "
         "bip84_prv_prefix bip84_pub_prefix wif_prefix address_prefix "
